@@ -449,17 +449,23 @@ fn composed(prof: &str, op: &str, s: &str) -> String {
     }
 }
 
-fn stabilize_op(start: &str, table: &str) -> String {
-    // state i is the string "a" repeated i+1 times; table entries: next state index, "E" (rule's own error),
-    // "I" (Invalid).  A transition to a SHORTER (or equal) state is handed back as a borrowed prefix of the input
-    // (Cow::Borrowed), a transition to a longer one as an owned string: both Cow variants are exercised.
+// state strings: family 0 = "a" repeated i+1 times; family 1 = strings with 2- and 3-byte characters that share lead
+// bytes and prefixes (a byte-wise comparison, a byte-wise common prefix or a pointer comparison goes wrong on these)
+const FAMILY1: [&str; 12] = ["x", "\u{e9}", "y", "\u{e8}", "\u{e9}\u{e8}", "\u{30af}", "\u{30b0}", "\u{e9}\u{e9}", "ab", "a", "\u{e9}\u{e8}\u{30af}", "\u{30af}\u{e9}"];
+
+fn stabilize_op(start: &str, table: &str, family: &str) -> String {
+    // table entries: next state index, "E" (rule's own error), "I" (Invalid).  A transition to a state whose string is a
+    // PREFIX of the current one is handed back as a borrowed prefix of the input (Cow::Borrowed), any other as an owned
+    // string: both Cow variants are exercised.
     let tab: Vec<&str> = table.split(' ').filter(|t| !t.is_empty()).collect();
     let calls: RefCell<Vec<String>> = RefCell::new(Vec::new());
-    let state_str = |i: usize| -> String { "a".repeat(i + 1) };
+    let fam1 = family == "1";
+    let state_str = |i: usize| -> String { if fam1 { FAMILY1[i % FAMILY1.len()].to_string() } else { "a".repeat(i + 1) } };
+    let state_of = |s: &str| -> usize { if fam1 { FAMILY1.iter().position(|x| *x == s).unwrap_or_else(|| proto("state")) } else { s.len() - 1 } };
     let start_i: usize = start.parse().unwrap_or_else(|_| proto("usize"));
     let f = |s: &str| -> Result<Option<usize>, Error> {
         calls.borrow_mut().push(fmt_str(s));
-        let i = s.len() - 1;
+        let i = state_of(s);
         match tab[i] {
             "E" => Err(Error::Unexpected(UnexpectedError::ProfileRuleNotApplicable)),
             "I" => Err(Error::Invalid),
@@ -468,10 +474,11 @@ fn stabilize_op(start: &str, table: &str) -> String {
     };
     let res = stabilize(state_str(start_i), |s| {
         let j = f(s)?.unwrap();
-        if j + 1 <= s.len() {
-            Ok(Cow::Borrowed(&s[..j + 1]))
+        let t = state_str(j);
+        if s.starts_with(t.as_str()) {
+            Ok(Cow::Borrowed(&s[..t.len()]))
         } else {
-            Ok(Cow::Owned("a".repeat(j + 1)))
+            Ok(Cow::Owned(t))
         }
     });
     let r = fmt_cow(res);
@@ -552,7 +559,7 @@ fn run_inner(line: &str) -> String {
                 &parse_str(arg(6)),
             )
         }
-        "stabilize" => stabilize_op(arg(1), arg(2)),
+        "stabilize" => stabilize_op(arg(1), arg(2), arg(3)),
         "cmp" => {
             let e = parse_entry(arg(1));
             let cp: u32 = arg(2).parse().unwrap();
